@@ -342,6 +342,13 @@ func TestVerif(t *testing.T) {
 		}
 		mon.run(t, sc, res)
 		res.inc("scenarios")
+		if p := os.Getenv("VERIF_FAKE_WATCHDOG_ONCE"); p != "" && *fShard == 2 {
+			// self-test of the runner's second-chance path: shard 2 dies like a tripped watchdog, once
+			if _, err := os.Stat(p); err != nil {
+				_ = os.WriteFile(p, []byte("x"), 0o644)
+				os.Exit(3)
+			}
+		}
 	}
 	if mon.finish != nil {
 		mon.finish(cfg, res)
